@@ -141,14 +141,16 @@ func init() {
 			return e
 		}
 		e.valid = true
-		r.Guard(x, "NewRouter", map[string]any{"document": key}, func() {
+		if !r.Guard(x, "NewRouter", map[string]any{"document": key}, func() {
 			if g, err := gorillamux.NewRouter(doc); err == nil {
 				e.routers = append(e.routers, g)
 			}
 			if lg, err := legacy.NewRouter(doc); err == nil {
 				e.routers = append(e.routers, lg)
 			}
-		})
+		}) {
+			delete(cache, key) // a failed construction is not remembered: every execution on this document reports it
+		}
 		return e
 	}
 	core.Register(&core.Check{
@@ -220,8 +222,8 @@ func init() {
 				}
 				ct = explore.Pick(x, []string{"application/json", "", "bogus", "text/plain"})
 			case "routing":
-				si = x.Choose(6) // server form
-				text = explore.Pick(x, []string{"/r", "/r/", "//r", "/r//", "/r/%2F", "/r/%zz", "*", "/r/a/b/c", "/R", "/r?", "/r;x", "/r/..", "/../r", "/r/%00"})
+				si = x.Choose(8) // server form; 6 and 7: no servers, a further path with four / six template variables
+				text = explore.Pick(x, []string{"/r", "/r/", "//r", "/r//", "/r/%2F", "/r/%zz", "*", "/r/a/b/c", "/R", "/r?", "/r;x", "/r/..", "/../r", "/r/%00", "/q/1/2/3/4", "/q/1/2/3/4/5/6"})
 				query = explore.Pick(x, []string{"GET", "POST", "HEAD", "PROPFIND", "get", "OPTIONS", "CONNECT", "TRACE"})
 			}
 			optSet := 0
@@ -247,6 +249,15 @@ func init() {
 					raw["servers"] = l(m("url", "{scheme}://h.example", "variables", m("scheme", m("default", "https", "enum", l("http", "https")))))
 				case 5:
 					raw["servers"] = l(m("url", "/"), m("url", "http://h.example"))
+				case 6, 7:
+					// templates with many variables (real APIs nest resources four and more levels deep)
+					vars := []string{"a", "b", "c", "d", "e", "f"}[:map[int]int{6: 4, 7: 6}[si]]
+					tpl, params := "/q", []any{}
+					for _, v := range vars {
+						tpl += "/{" + v + "}"
+						params = append(params, m("name", v, "in", "path", "required", true, "schema", m("type", "string")))
+					}
+					raw["paths"].(map[string]any)[tpl] = m("parameters", params, "get", m("responses", m("200", m("description", "ok"))))
 				}
 			} else {
 				raw = c10Doc(family, cell, schemas[si], declared)
